@@ -3,7 +3,7 @@ from props import _auto
 
 LEAN_MODULES = _auto.lean_modules("C13")
 VARIANTS = ['default']
-RULE = 'seeds x message lengths 0..=300 (+larger), lengths straddling SHA-512 blocks after the 32/64-byte prefixes; extended-secret signing, exchange; non-trivial = any; distinct = distinct case lines'
+RULE = 'seeds x every message length 0..=300 for ed25519.sign in both tiers (+ larger: 1000..65536), lengths straddling SHA-512 blocks after the 32/64-byte prefixes; extended-secret signing (quick: every 4th length to 130 and the block edges), exchange; non-trivial = any; distinct = distinct case lines'
 TRUSTED = ["hand-written Lean models (lean/CxVerif/Impl, Spec) tied to the code by the correspondence run and by tables re-extracted from /repo/src"]
 ASSUMPTIONS = []
 gen = _auto.make_gen("C13")
